@@ -609,6 +609,13 @@ BOUNDED_LOOPS = {
 }
 
 
+# the same exemption stated structurally (so that it survives a change of loop form): every cycle through a suspension point passes
+# a test on the named reply code
+BOUNDED_BY_TEST = {
+    "aiokafka.consumer.group_coordinator.CoordinatorGroupRebalance.perform_group_join": ("MemberIdRequired", "try_join"),
+}
+
+
 def _awaited_closure(ctx, roots):
     """Functions executed synchronously (awaited / called) from roots; spawn arguments are not followed."""
     seen = {}
@@ -664,6 +671,12 @@ def rule_closing_loops(ctx):
             if key in BOUNDED_LOOPS:
                 ctx.ob(R, fi, head, True, BOUNDED_LOOPS[key], text="bounded:" + key[1])
                 continue
+            if q in BOUNDED_BY_TEST:
+                tok, tabkey = BOUNDED_BY_TEST[q]
+                cut = {t for t in body if t.kind == "test" and tok in unparse(t.ast)}
+                if cut and not any(head in c.reachable([s_], avoid=cut) and s_ in c.reachable([head], avoid=cut) for s_ in sus):
+                    ctx.ob(R, fi, head, True, BOUNDED_LOOPS[(q, tabkey)], text="bounded:" + tabkey)
+                    continue
             # closing tests inside the loop whose one branch leaves the loop
             ct = [t for t in body if t.kind == "test" and "_closing" in unparse(t.ast)]
             leaving = []
